@@ -632,6 +632,17 @@ def check_selection(prog, rep, fs, entry_of, pubname='zone_ids'):
                 n += 1
                 rep.add('Z-select', fv, entry_of(f), norm(c_)[:120], c_.lineno, False,
                         'an id is selected iff it EQUALS a requested id: `%s` also selects every id within the tolerance' % short(c_))
+        # rows / columns selected one requested id at a time, by equality with the id of the turn (`df[df.zone == z] for z in ids`):
+        # the result follows the ORDER and the multiplicity of the request instead of the ascending distinct ids
+        loopvars = idvars - set(names)
+        for c_ in [x for x in fv.own_nodes() if isinstance(x, ast.Compare)]:
+            if loopvars and any(isinstance(o, (ast.Eq, ast.NotEq)) for o in c_.ops) and \
+                    any(isinstance(x, ast.Name) and x.id in loopvars for s_ in [c_.left] + list(c_.comparators) for x in [s_]) and \
+                    any(isinstance(s_, (ast.Subscript, ast.Attribute)) for s_ in [c_.left] + list(c_.comparators)):
+                n += 1
+                rep.add('Z-select', fv, entry_of(f), norm(c_)[:120], c_.lineno, False,
+                        'an id is selected iff it is a member of the requested ids, and the rows come out ascending, once each: this picks '
+                        'the rows request by request, in the caller\'s order and as often as an id is repeated')
         for node in fv.own_nodes():
             tests = []
             if isinstance(node, (ast.If, ast.While)):
@@ -864,6 +875,7 @@ def check_index_space(prog, rep, fs, entry_of):
 # ------------------------------------------------------------------------------------------- Z5 NaN init / guard
 def check_nan_results(prog, rep, fs, entry_of):
     n = 0
+    calc_funcs = []
     for f in fs:
         if f.is_lambda:
             continue
@@ -905,6 +917,33 @@ def check_nan_results(prog, rep, fs, entry_of):
                             'a zone with no valid cell must get NaN: the result vector must be NaN-initialised and '
                             'assigned only when the filtered values are non-empty (init ok: %s, guard ok: %s)'
                             % (init_ok, guard_ok))
+                    calc_funcs.append(f)
+    # ... and NaN must survive to the caller: what the per-zone routine returns is not cast to an integer dtype on the way
+    # into the result (NaN has no integer representation: a zone without valid cells would get INT_MIN)
+    INTS = ('int', 'np.int64', 'np.int32', 'np.int16', 'np.int8', 'np.uint8', 'np.uint16', 'np.uint32', 'np.uint64', "'i8'", "'i4'", "'int64'",
+            "'int32'", 'numpy.int64', 'numpy.int32', 'np.intp', 'np.int_')
+    for g in fs:
+        if g.is_lambda or not calc_funcs:
+            continue
+        holders = set()
+        for n_ in g.own_nodes():
+            if isinstance(n_, ast.Assign) and any(isinstance(c_, ast.Call) and prog.resolve_callable(g, g.module, c_.func) in calc_funcs
+                                                  for c_ in ast.walk(n_.value)):
+                for t_ in n_.targets:
+                    b_ = t_
+                    while isinstance(b_, ast.Subscript):
+                        b_ = b_.value
+                    if isinstance(b_, ast.Name):
+                        holders.add(b_.id)
+        if not holders:
+            continue
+        for c_ in calls(g.node):
+            if c_ in g.own_nodes() and isinstance(c_.func, ast.Attribute) and c_.func.attr == 'astype' and c_.args and \
+                    norm(c_.args[0]).replace(' ', '') in INTS and any(isinstance(x, ast.Name) and x.id in holders for x in ast.walk(c_.func.value)):
+                n += 1
+                rep.add('Z5', g, entry_of(g), norm(c_)[:120], c_.lineno, False,
+                        'a zone with no valid cell must get NaN in every statistic (count included): the per-zone results are cast to an '
+                        'integer dtype here, which turns NaN into a number')
     return n
 
 
@@ -1448,6 +1487,15 @@ def check_alignment(prog, rep, m, pubname, entry):
     if not zips:
         return 0
     zp, vp = pub.params[0], pub.params[1]
+    # `.chunksize` is the LARGEST block per axis, not the block structure: chunks compared or re-made from it line up only
+    # for regular chunkings (a window cut out of a larger dask array has a short first or last block)
+    cs = [x for x in pub.own_nodes() if isinstance(x, ast.Attribute) and x.attr == 'chunksize']
+    if cs:
+        n += 1
+        rep.add('Z9', pub, entry, 'chunk alignment from %s' % norm(cs[0]), cs[0].lineno, False,
+                'zones and values blocks are paired positionally: their chunks must be made EQUAL (`.chunks`, the tuple of block '
+                'extents per axis); `.chunksize` only gives the largest extent, so irregular chunkings stay misaligned')
+        return n
 
     def aligns(stmts):
         for s in stmts:
@@ -1527,6 +1575,61 @@ def check_alignment(prog, rep, m, pubname, entry):
     n += 1
     rep.add('Z9', pub, entry, 'alignment of %s chunks to %s on every dask path' % (vp, zp), pub.node.lineno, ok,
             'zones and values blocks are paired positionally (zip of to_delayed().ravel()); ' + why)
+    return n
+
+
+def check_layer_dim(prog, rep, pub, entry):
+    """X-layer: 3-D values are tabulated layer by layer along `layer`: the transposition that brings that dimension to the
+    front keeps the other two in their order (they must still line up with the zones raster's (y, x)).  The expression handed
+    to `.transpose(*dims)` is folded (consteval) for dims = (a, b, c) and every layer index -3..2."""
+    from .consteval import CannotFold, Folder
+    fv = _view(prog, pub)
+    n = 0
+    for c in calls(fv.node):
+        if short(c) != 'transpose' or not c.args or not isinstance(c.args[0], ast.Starred):
+            continue
+        arg = c.args[0].value
+        lp = next((p for p in pub.params if p == 'layer'), None) or next((p for p in pub.params if 'layer' in p), None)
+        if lp is None:
+            continue
+        # the statements that define the argument: single assignments of the names it reads, in program order
+        body = [s for s in fv.own_nodes() if isinstance(s, ast.Assign) and s.lineno < c.lineno and len(s.targets) == 1 and
+                isinstance(s.targets[0], ast.Name)]
+        needed = {x.id for x in ast.walk(arg) if isinstance(x, ast.Name)}
+        chain = []
+        for s in sorted(body, key=lambda s_: -s_.lineno):
+            if s.targets[0].id in needed and s.targets[0].id != lp:
+                chain.insert(0, s)
+                needed |= {x.id for x in ast.walk(s.value) if isinstance(x, ast.Name)}
+        bad = None
+        ok = None
+        why = ''
+        try:
+            for k in (0, 1, 2, -1, -2, -3):
+                env = {lp: k}
+                fo = Folder(prog, pub.module)
+                # `values.dims` of the model raster
+                stmts = []
+                for s in chain:
+                    if isinstance(s.value, ast.Attribute) and s.value.attr == 'dims':
+                        env[s.targets[0].id] = ('a', 'b', 'c')
+                    else:
+                        stmts.append(s)
+                fo.block(stmts, env)
+                got = list(fo.ev(arg, env))
+                dims = ['a', 'b', 'c']
+                want = [dims[k]] + [d for d in dims if d != dims[k]]
+                if got != want:
+                    bad = (k, got, want)
+                    break
+            ok = bad is None
+            why = 'layer=%d gives dims %s, expected %s' % bad if bad else ''
+        except (CannotFold, TypeError, IndexError) as e:
+            ok, why = None, 'not foldable: %s' % e
+        n += 1
+        rep.add('X-layer', pub, entry, norm(c)[:100], c.lineno, ok,
+                'the category dimension goes first and the two raster dimensions keep their order (rows, columns) so that each '
+                'layer lines up with the zones raster; ' + why)
     return n
 
 
